@@ -56,7 +56,7 @@ class Pipe:
             network = Pipe(throughput=64)
             await network.transfer(total=50 * 1024, throughput=128)  # transfer with 64
 
-        If ``throughput`` is not given, it defaults to the Pipe's
+        If ``throughput`` is not given or infinite, it defaults to the Pipe's
         :py:attr:`~.throughput` limit.
         """
         assert total >= 0, 'total must be positive'
@@ -64,7 +64,9 @@ class Pipe:
             'throughput must be positive or None'
         transferred = 0
         identifier = object()
-        throughput = throughput if throughput is not None else self.throughput
+        if throughput is None or throughput == float('inf'):
+            # a transfer without a limit of its own is limited by the pipe only
+            throughput = self.throughput
         self._add_subscriber(identifier, throughput)
         try:
             if total == 0:
